@@ -396,7 +396,7 @@ func init() {
 		},
 		Gen: func(r *Rng, tier string) *genProfile {
 			return &genProfile{MaxSteps: steps(tier, 30, 70), Default: 0, FollowUp: 70, Template: 50,
-				Templates: []string{"enroll_totp", "enroll_sms", "everify_probe", "remove_factor", "remove_factor", "halfauth_settings", "adversary_codes"},
+				Templates: []string{"enroll_totp", "enroll_sms", "everify_probe", "remove_factor", "remove_factor", "spent_recovery_remove", "halfauth_settings", "adversary_codes"},
 				Weights: withW(loginWeights, map[string]int{"totp_setup": 6, "totp_confirm": 6, "totp_remove": 6, "sms_setup": 6, "sms_confirm": 6, "sms_remove": 6,
 					"recovery_regen": 2, "everify_start": 5, "everify_end": 6, "totp_setup_get": 2, "sms_setup_get": 2, "recover_start": 0, "recover_end": 0, "otp_login": 2,
 					"drop_session": 4, "probe": 3}),
@@ -579,7 +579,7 @@ func init() {
 		},
 		Gen: func(r *Rng, tier string) *genProfile {
 			return &genProfile{MaxSteps: steps(tier, 40, 100), Default: 1, FollowUp: 60, Template: 35,
-				Templates: []string{"recover_flow", "confirm_flow", "token_near_miss", "register_flow", "otp_flow", "remember_cycle", "enroll_totp", "login_ok"},
+				Templates: []string{"recover_flow", "confirm_flow", "token_near_miss", "register_flow", "otp_flow", "remember_cycle", "enroll_totp", "everify_link_elsewhere", "login_ok"},
 				Weights:   loginWeights, BadSecret: 40, ThreshGaps: 10, SmallGaps: 20, FaultRate: 60, Redir: 5}
 		},
 		Oracle:        newC17Oracle,
